@@ -434,6 +434,58 @@ def _header_end(m):
     return None
 
 
+def _param_names(header):
+    """names of the parameters of a fn header, in order (`self` for any receiver); None if it cannot be read"""
+    m = mask(header)
+    k = m.find('fn ')
+    if k < 0:
+        return None
+    i = k + 3
+    depth = 0
+    p = -1
+    while i < len(m):
+        c = m[i]
+        if c == '<':
+            depth += 1
+        elif c == '>' and m[i - 1] != '-':
+            depth -= 1
+        elif c == '(' and depth == 0:
+            p = i
+            break
+        i += 1
+    if p < 0:
+        return None
+    q = match_close(m, p)
+    inner = m[p + 1:q]
+    parts = []
+    d = 0
+    cur = ''
+    for c in inner:
+        if c in '([{<':
+            d += 1
+        elif c in ')]}>':
+            d -= 1
+        if c == ',' and d == 0:
+            parts.append(cur)
+            cur = ''
+        else:
+            cur += c
+    if cur.strip():
+        parts.append(cur)
+    names = []
+    for part in parts:
+        part = part.strip()
+        if not part:
+            continue
+        head = part.split(':')[0].strip()
+        head = re.sub(r"^(&\s*('\w+\s+)?)?(mut\s+)?", '', head).strip()
+        if head.endswith('self') or head == 'self':
+            names.append('self')
+        else:
+            names.append(head)
+    return names
+
+
 def _name_return(header, ret):
     """`fn f(..) -> T where ..` => `fn f(..) -> (ret: T) where ..`"""
     m = mask(header)
@@ -722,6 +774,14 @@ def build_item(src, spec, idx, log, degrade=False):
         rest = text[hdr_end:]
         if header_override is not None:
             lines, okey = header_override
+            # the override instantiates generic parameters; it must still describe the same parameters in the same order
+            real_p, over_p = _param_names(header), _param_names('\n'.join(lines))
+            fn_real = re.search(r'\bfn\s+(\w+)', mask(header))
+            fn_over = re.search(r'\bfn\s+(\w+)', mask('\n'.join(lines)))
+            same_fn = fn_real and fn_over and fn_real.group(1) == fn_over.group(1)
+            # (an override that also renames the function re-purposes its body on purpose, e.g. the Drop body as `vx_commit`)
+            if same_fn and real_p is not None and over_p is not None and real_p != over_p:
+                raise ExtractError('//@sig of %s names the parameters %s but the function now has %s' % (what, over_p, real_p))
             header = '\n'.join(_tag(l, idx, okey) for l in lines) + '\n'
             log['rewrites'].append({'rule': 'R7', 'item': what, 'count': 1, 'note': 'header replaced by //@sig'})
         elif any(b[0] == 'spec' for b in spec.blocks):
